@@ -4,6 +4,7 @@ import GqlVerif.Proofs.SerdeFuelWitness
 import GqlVerif.Proofs.C14GeneratedWitness
 import GqlVerif.Proofs.C14GeneratedFragWitness
 import GqlVerif.Proofs.C01DenyFragWitness
+import GqlVerif.Proofs.CalcVariantsPushedClasses
 open GqlVerif.C14
 #print axioms dep_table
 #print axioms never_omitted_unless_denied
@@ -68,3 +69,16 @@ open GqlVerif.C14
 -- with the fuel condition discharged for the fragment class (Proofs/C01DenyFrag.lean)
 #print axioms GqlVerif.C01.Deny.denied_field_payload_same_frag'
 #print axioms GqlVerif.C01.Deny.fragOpD_envOK
+-- the alias-or-struct decision of a variant struct follows `has_fields` (pushed, not rendered fields): docs/REVIEW_3.md finding 1, P41
+#print axioms GqlVerif.Pushed.pushedAny_false_fields
+#print axioms GqlVerif.Pushed.fields_nil_pushedAny_false
+#print axioms GqlVerif.Pushed.pushedAny_eq_of_noDenied
+#print axioms GqlVerif.Pushed.decision_eq_old
+#print axioms GqlVerif.Pushed.fields_nil_iff
+#print axioms GqlVerif.Pushed.noDeniedV_of_not_deny
+#print axioms GqlVerif.Pushed.deny_variant_struct_keeps_flatten
+#print axioms GqlVerif.Pushed.allow_variant_struct_two_members
+#print axioms GqlVerif.Pushed.old_decision_alias
+#print axioms GqlVerif.Pushed.variantOp_decision
+#print axioms GqlVerif.Pushed.variantSpreadOp_decision
+#print axioms GqlVerif.Pushed.variantSpreadOp2_decision
